@@ -96,3 +96,22 @@ Definition consist_outs (c : Consistf) : list out :=
 
 Definition x_consist_step (c : Consistf) (pwr dt : float) : list out :=
   res_outs (consist_sim_solve_step c pwr dt) consist_outs.
+
+(* ---- whole walks (end-to-end, not lock-step): the run function the theorems quantify over ---- *)
+Fixpoint loco_run (l : Locof) (tr : list (float * float * bool)) : res Locof :=
+  match tr with
+  | [] => Ok l
+  | (p, dt, on) :: t => match loco_sim_solve_step l p dt on with
+                        | Ok l' => loco_run l' t | Err c => Err c | Panic c => Panic c end
+  end.
+Definition x_loco_walk (l : Locof) (tr : list (float * float * bool)) : list out :=
+  res_outs (loco_run l tr) loco_outs.
+
+Fixpoint consist_run (c : Consistf) (tr : list (float * float)) : res Consistf :=
+  match tr with
+  | [] => Ok c
+  | (p, dt) :: t => match consist_sim_solve_step c p dt with
+                    | Ok c' => consist_run c' t | Err e => Err e | Panic e => Panic e end
+  end.
+Definition x_consist_walk (c : Consistf) (tr : list (float * float)) : list out :=
+  res_outs (consist_run c tr) consist_outs.
